@@ -129,6 +129,18 @@ def run_task(prog, tid, params, tier):
                 return ('err', None, None)
             t = txt.f[0]
             pieces = [I.seq_list(cs.f[0]) for cs in t.f[0].items]
+            # the record built from the text: len() == bytes written, and the written RDATA parses back to the same strings
+            tref = I.new_ref(t, 'txt')
+            sink = Cell(VecV(()), 'sink')
+            f_w = [f for tr, f in prog.methods[('TXT', 'write_to')] if (tr or '').startswith('WireFormat')][0]
+            f_l = [f for tr, f in prog.methods[('TXT', 'len')] if (tr or '').startswith('WireFormat')][0]
+            f_p = [f for tr, f in prog.methods[('TXT', 'parse')] if (tr or '').startswith('WireFormat')][0]
+            w = I.call_function(f_w, [tref, Ref(sink)], {'T': 'Vec<u8>'})
+            ln = I.call_function(f_l, [tref], {})
+            wire = list(sink.v.items)
+            pos = Cell(mk('usize', 0), 'pos')
+            pr = I.call_function(f_p, [X.byte_buffer(I, wire, 'wire'), Ref(pos)], {}) if w.var == 'Ok' else None
+            I.wirecheck = (w, ln, wire, pr)
             back = I.call_function(f_to_string, [t], {})
             return ('ok', pieces, back)
 
@@ -142,6 +154,11 @@ def run_task(prog, tid, params, tier):
                 return viol(res, 'reject', 'TXT::try_from(&str) fails on a %d-byte string' % n, syms)
             if any(len(p) > 255 for p in pieces):
                 return viol(res, 'piece', 'a piece exceeds 255 bytes', syms)
+            w, ln, wire, pr = res.interp.wirecheck
+            if w.var != 'Ok' or res.ctx.check(ln.z() != len(wire)) or (n and len(wire) != n + len(pieces)):
+                return viol(res, 'wire-len', 'TXT built from text: len() / bytes written / string lengths disagree', syms)
+            if pr is None or pr.var != 'Ok' or len(pr.f[0].f[0].items) != max(1, len(pieces)):
+                return viol(res, 'wire-parse', 'the RDATA written for a TXT built from text does not parse back to the same strings', syms)
             if back.var != 'Ok':
                 return viol(res, 'join', 'String::try_from(TXT) fails', syms)
             out = list(back.f[0].items)
